@@ -46,7 +46,7 @@ def cases(ctx):
                         yield {"kind": "name", "v2": name, "newfield": newfield, "outfile": outfile, "explicit": explicit, "rseed": idx}
                     idx += 1
     for i in range(ctx.n(500, 40000)):
-        m = models.gen_model(rng, n_ops=rng.randint(1, 10), sinks=False)
+        m = models.gen_model(rng, n_ops=rng.randint(1, 10), sinks=False, table=models.gen_table(rng, exotic_names=False))   # READ may take its result name from the column
         if i % 5 == 0:
             # a legal POSIX file name with a backslash in it (what a Windows-style relative path looks like here)
             newname = rng.choice(["da\\ta.csv", "in\\put\\table.csv", "t\\x.csv"])
